@@ -6,8 +6,9 @@
 (* squares that would not fit are replaced by integer-square-root brackets    *)
 (* and, between the brackets, by a product-free comparison of two fractions.  *)
 (* TRANSCRIBED part: what src/primitives/line/{bresenham,points,thick_points} *)
-(* .rs compute, one operator per Rust item.  Constant-level operators only;   *)
-(* the machines that step them live in MC_C17 / MC_C19.                       *)
+(* .rs and src/primitives/polyline/points.rs compute, one operator per Rust   *)
+(* item (anchors are file:line of the pinned tree).  Constant-level operators *)
+(* only; the machines that step them live in MC_C17 / MC_C19.                 *)
 EXTENDS Integers, Sequences, EGInt, EGGeom
 
 PAdd(p, q) == <<p[1] + q[1], p[2] + q[2]>>
